@@ -67,8 +67,9 @@ public:
     /// Deserialization constructor.
     explicit distribution_parameters(std::istream& in)
     {
-        // consume newline character and read name
-        std::getline(in >> std::ws, name_);
+        // the name is the complete next line; it may be empty or start with blanks, so no
+        // whitespace must be skipped here
+        std::getline(in, name_);
 
         in >> bins_x_ >> x_min_ >> bin_size_x_ >> bins_y_ >> y_min_ >> bin_size_y_;
     }
